@@ -2,6 +2,8 @@
 # build.sh <harness> [extra flags...]  — builds /verif/build/dsim/<harness> from $VERIF_REPO (default /repo)
 set -e
 H=$1; shift
+OUTNAME=$H
+if [ "$1" = "--out" ]; then OUTNAME=$2; shift; shift; fi
 REPO=${VERIF_REPO:-/repo}
 OUT=${VERIF_BUILD:-/verif/build}/dsim
 mkdir -p $OUT
@@ -11,5 +13,5 @@ if [ ! -f $SIMO ] || [ /verif/simrt/simrt.cpp -nt $SIMO ] || [ /verif/simrt/simr
   $CXX -O2 -g -std=c++17 -c /verif/simrt/simrt.cpp -o $SIMO.tmp.$$ && mv $SIMO.tmp.$$ $SIMO
 fi
 $CXX -std=c++17 -O1 -g -fopenmp -fsanitize=thread --param tsan-instrument-func-entry-exit=0 --param tsan-distinguish-volatile=1 \
-  -DSOUFFLE_VERIF -w -I$REPO/src/include -I/verif "$@" -c /verif/dsim/$H.cpp -o $OUT/$H.o
-$CXX -o $OUT/$H $OUT/$H.o $SIMO -ldl -lpthread
+  -DSOUFFLE_VERIF -w -I$REPO/src/include -I/verif "$@" -c /verif/dsim/$H.cpp -o $OUT/$OUTNAME.o
+$CXX -o $OUT/$OUTNAME $OUT/$OUTNAME.o $SIMO -ldl -lpthread
